@@ -1,5 +1,5 @@
 /-!
-# C17 — reference precedence parser / minimal-parenthesis printer for the expression tower
+# C17 — reference parser / minimal printer for the expression tower and the statement level
 of `Resources/Hexagon/grammar.lark` (a modified C11 grammar).
 
 Numbering of the precedence levels used by printer and parser (`0` = loosest):
@@ -12,13 +12,31 @@ Numbering of the precedence levels used by printer and parser (`0` = loosest):
 | 12    | `cast_expr`             | `( type ) cast_expr`                               |
 | 13    | `unary_expr`            | `UNARY_OP cast_expr`                               |
 | 14    | `postfix_expr`          | `postfix_expr INC_OP/DEC_OP`                       |
-| 15    | `primary_expr`, `sub_routine` | atom, `( expr )`, `f ( args )`               |
+| 15    | `primary_expr`, `sub_routine` | atom, `( expr )`, `f ( args )`, `( { block_item* expr ; } )` |
+
+Statement level (`CStmt`, `prS`, `pStmt`/`pItem`/`pItems`, `refParseStmt`):
+
+| grammar rule        | shape                                                                  |
+|---------------------|------------------------------------------------------------------------|
+| `expr_stmt`         | `expr ;`  or the empty statement `;`                                   |
+| `compound_stmt`     | `{ block_item* }`, `block_item : declaration | stmt`                   |
+| `selection_stmt`    | `if ( expr ) stmt [else stmt]` — an `else` belongs to the NEAREST `if` |
+| `iteration_stmt`    | `for ( expr ; expr ; expr ) stmt`                                      |
+| `declaration`       | `T x ;`  or  `T x = assignment_expr ;` (block item only; `T` a `ty` token) |
+| `gcc_extended_expr` | `( { block_item* expr ; } )` as a primary expression                   |
+
+Expressions and statements are mutually recursive (types, printers, parsers, well-formedness).
+C's rules, not Lark's ambiguity resolution, are implemented: nearest-`if` else binding, no optional
+`;` after `}`, declarations recognised by the leading type token.
 
 Core Lean only; everything is total and executable.
 -/
 namespace Rzil.Grammar
 
-/-- Expression trees.  Parentheses are not represented: the printer re-inserts the minimal ones. -/
+mutual
+/-- Expression trees.  Parentheses are not represented: the printer re-inserts the minimal ones.
+    `stmtExpr items e` is the GCC statement-expression `({ items e; })` (a primary expression), so
+    expressions and statements are mutually recursive. -/
 inductive CExpr where
   | atom (s : String)
   | call (f : String) (args : List CExpr)
@@ -28,10 +46,64 @@ inductive CExpr where
   | bin (op : String) (a b : CExpr)
   | tern (c a b : CExpr)
   | assign (op : String) (a b : CExpr)
+  | stmtExpr (items : List CStmt) (e : CExpr)
   deriving Repr, Inhabited
+/-- Statement trees.  `decl`/`declInit` are block items (`T x;`, `T x = e;`), not statements: the
+    parser accepts them only directly inside `{ }` (predicate `SWFp`). -/
+inductive CStmt where
+  | expr (e : CExpr)
+  | empty
+  | block (items : List CStmt)
+  | if_ (c : CExpr) (t : CStmt)
+  | ifElse (c : CExpr) (t e : CStmt)
+  | for_ (i c s : CExpr) (b : CStmt)
+  | decl (ty x : String)
+  | declInit (ty x : String) (e : CExpr)
+  deriving Repr, Inhabited
+end
+
+/-- Induction principle for the mutual, nested inductives `CExpr` / `CStmt`. -/
+theorem CExpr.ind2 {P : CExpr → Prop} {S : CStmt → Prop}
+    (atom : ∀ s, P (.atom s))
+    (call : ∀ f args, (∀ a ∈ args, P a) → P (.call f args))
+    (post : ∀ o a, P a → P (.post o a))
+    (un : ∀ o a, P a → P (.un o a))
+    (cast : ∀ t a, P a → P (.cast t a))
+    (bin : ∀ o a b, P a → P b → P (.bin o a b))
+    (tern : ∀ c a b, P c → P a → P b → P (.tern c a b))
+    (assign : ∀ o a b, P a → P b → P (.assign o a b))
+    (stmtExpr : ∀ items e, (∀ s ∈ items, S s) → P e → P (.stmtExpr items e))
+    (expr : ∀ e, P e → S (.expr e))
+    (empty : S .empty)
+    (block : ∀ items, (∀ s ∈ items, S s) → S (.block items))
+    (if_ : ∀ c t, P c → S t → S (.if_ c t))
+    (ifElse : ∀ c t e, P c → S t → S e → S (.ifElse c t e))
+    (for_ : ∀ i c s b, P i → P c → P s → S b → S (.for_ i c s b))
+    (decl : ∀ t x, S (.decl t x))
+    (declInit : ∀ t x e, P e → S (.declInit t x e)) : (∀ e, P e) ∧ (∀ s, S s) := by
+  have hnilE : ∀ a ∈ ([] : List CExpr), P a := by intro a h; cases h
+  have hnilS : ∀ a ∈ ([] : List CStmt), S a := by intro a h; cases h
+  have hconsE : ∀ hd tl, P hd → (∀ a ∈ tl, P a) → ∀ a ∈ hd :: tl, P a := by
+    intro hd tl h1 h2 a ha
+    cases ha with
+    | head => exact h1
+    | tail _ h => exact h2 a h
+  have hconsS : ∀ hd tl, S hd → (∀ a ∈ tl, S a) → ∀ a ∈ hd :: tl, S a := by
+    intro hd tl h1 h2 a ha
+    cases ha with
+    | head => exact h1
+    | tail _ h => exact h2 a h
+  exact ⟨fun e => CExpr.rec (motive_1 := P) (motive_2 := S) (motive_3 := fun l => ∀ a ∈ l, P a)
+      (motive_4 := fun l => ∀ a ∈ l, S a)
+      atom call post un cast bin tern assign stmtExpr expr empty block if_ ifElse for_ decl declInit
+      hnilE hconsE hnilS hconsS e,
+    fun s => CStmt.rec (motive_1 := P) (motive_2 := S) (motive_3 := fun l => ∀ a ∈ l, P a)
+      (motive_4 := fun l => ∀ a ∈ l, S a)
+      atom call post un cast bin tern assign stmtExpr expr empty block if_ ifElse for_ decl declInit
+      hnilE hconsE hnilS hconsS s⟩
 
 mutual
-/-- Structural equality test (`DecidableEq` cannot be derived for the nested inductive). -/
+/-- Structural equality test (`DecidableEq` cannot be derived for the nested inductives). -/
 def CExpr.beq : CExpr → CExpr → Bool
   | .atom s, .atom t => s == t
   | .call f as, .call g bs => f == g && CExpr.beqs as bs
@@ -41,74 +113,123 @@ def CExpr.beq : CExpr → CExpr → Bool
   | .bin o a b, .bin o' a' b' => o == o' && CExpr.beq a a' && CExpr.beq b b'
   | .tern c a b, .tern c' a' b' => CExpr.beq c c' && CExpr.beq a a' && CExpr.beq b b'
   | .assign o a b, .assign o' a' b' => o == o' && CExpr.beq a a' && CExpr.beq b b'
+  | .stmtExpr is e, .stmtExpr is' e' => CStmt.beqs is is' && CExpr.beq e e'
   | _, _ => false
+termination_by structural a => a
 def CExpr.beqs : List CExpr → List CExpr → Bool
   | [], [] => true
   | a :: as, b :: bs => CExpr.beq a b && CExpr.beqs as bs
   | _, _ => false
+def CStmt.beq : CStmt → CStmt → Bool
+  | .expr e, .expr e' => CExpr.beq e e'
+  | .empty, .empty => true
+  | .block is, .block is' => CStmt.beqs is is'
+  | .if_ c t, .if_ c' t' => CExpr.beq c c' && CStmt.beq t t'
+  | .ifElse c t e, .ifElse c' t' e' => CExpr.beq c c' && CStmt.beq t t' && CStmt.beq e e'
+  | .for_ i c s b, .for_ i' c' s' b' =>
+      CExpr.beq i i' && CExpr.beq c c' && CExpr.beq s s' && CStmt.beq b b'
+  | .decl t x, .decl t' x' => t == t' && x == x'
+  | .declInit t x e, .declInit t' x' e' => t == t' && x == x' && CExpr.beq e e'
+  | _, _ => false
+def CStmt.beqs : List CStmt → List CStmt → Bool
+  | [], [] => true
+  | a :: as, b :: bs => CStmt.beq a b && CStmt.beqs as bs
+  | _, _ => false
 end
 
-mutual
-theorem CExpr.eq_of_beq : ∀ (a b : CExpr), CExpr.beq a b = true → a = b
-  | .atom s, .atom t, h => by simp [CExpr.beq] at h; simp [h]
-  | .call f as, .call g bs, h => by
-      simp [CExpr.beq] at h; simp [h.1, CExpr.eqs_of_beqs as bs h.2]
-  | .post o a, .post o' a', h => by
-      simp [CExpr.beq] at h; simp [h.1, CExpr.eq_of_beq a a' h.2]
-  | .un o a, .un o' a', h => by
-      simp [CExpr.beq] at h; simp [h.1, CExpr.eq_of_beq a a' h.2]
-  | .cast o a, .cast o' a', h => by
-      simp [CExpr.beq] at h; simp [h.1, CExpr.eq_of_beq a a' h.2]
-  | .bin o a b, .bin o' a' b', h => by
-      simp [CExpr.beq] at h
-      simp [h.1.1, CExpr.eq_of_beq a a' h.1.2, CExpr.eq_of_beq b b' h.2]
-  | .tern c a b, .tern c' a' b', h => by
-      simp [CExpr.beq] at h
-      simp [CExpr.eq_of_beq c c' h.1.1, CExpr.eq_of_beq a a' h.1.2, CExpr.eq_of_beq b b' h.2]
-  | .assign o a b, .assign o' a' b', h => by
-      simp [CExpr.beq] at h
-      simp [h.1.1, CExpr.eq_of_beq a a' h.1.2, CExpr.eq_of_beq b b' h.2]
-  | .atom _, .call .., h | .atom _, .post .., h | .atom _, .un .., h | .atom _, .cast .., h
-  | .atom _, .bin .., h | .atom _, .tern .., h | .atom _, .assign .., h => by simp [CExpr.beq] at h
-  | .call .., .atom _, h | .call .., .post .., h | .call .., .un .., h | .call .., .cast .., h
-  | .call .., .bin .., h | .call .., .tern .., h | .call .., .assign .., h => by simp [CExpr.beq] at h
-  | .post .., .atom _, h | .post .., .call .., h | .post .., .un .., h | .post .., .cast .., h
-  | .post .., .bin .., h | .post .., .tern .., h | .post .., .assign .., h => by simp [CExpr.beq] at h
-  | .un .., .atom _, h | .un .., .call .., h | .un .., .post .., h | .un .., .cast .., h
-  | .un .., .bin .., h | .un .., .tern .., h | .un .., .assign .., h => by simp [CExpr.beq] at h
-  | .cast .., .atom _, h | .cast .., .call .., h | .cast .., .post .., h | .cast .., .un .., h
-  | .cast .., .bin .., h | .cast .., .tern .., h | .cast .., .assign .., h => by simp [CExpr.beq] at h
-  | .bin .., .atom _, h | .bin .., .call .., h | .bin .., .post .., h | .bin .., .un .., h
-  | .bin .., .cast .., h | .bin .., .tern .., h | .bin .., .assign .., h => by simp [CExpr.beq] at h
-  | .tern .., .atom _, h | .tern .., .call .., h | .tern .., .post .., h | .tern .., .un .., h
-  | .tern .., .cast .., h | .tern .., .bin .., h | .tern .., .assign .., h => by simp [CExpr.beq] at h
-  | .assign .., .atom _, h | .assign .., .call .., h | .assign .., .post .., h | .assign .., .un .., h
-  | .assign .., .cast .., h | .assign .., .bin .., h | .assign .., .tern .., h => by simp [CExpr.beq] at h
-theorem CExpr.eqs_of_beqs : ∀ (as bs : List CExpr), CExpr.beqs as bs = true → as = bs
-  | [], [], _ => rfl
-  | a :: as, b :: bs, h => by
-      simp [CExpr.beqs] at h; simp [CExpr.eq_of_beq a b h.1, CExpr.eqs_of_beqs as bs h.2]
-  | [], _ :: _, h | _ :: _, [], h => by simp [CExpr.beqs] at h
-end
+theorem CExpr.eqs_of {as : List CExpr} (h : ∀ a ∈ as, ∀ b, CExpr.beq a b = true → a = b) :
+    ∀ bs, CExpr.beqs as bs = true → as = bs := by
+  induction as with
+  | nil => intro bs hb; cases bs <;> simp [CExpr.beqs] at hb ⊢
+  | cons a as ih =>
+    intro bs hb
+    cases bs with
+    | nil => simp [CExpr.beqs] at hb
+    | cons b bs =>
+      simp [CExpr.beqs] at hb
+      rw [h a (by simp) b hb.1, ih (fun x hx => h x (by simp [hx])) bs hb.2]
 
-mutual
-theorem CExpr.beq_refl : ∀ (a : CExpr), CExpr.beq a a = true
-  | .atom _ => by simp [CExpr.beq]
-  | .call _ as => by simp [CExpr.beq, CExpr.beqs_refl as]
-  | .post _ a | .un _ a | .cast _ a => by simp [CExpr.beq, CExpr.beq_refl a]
-  | .bin _ a b | .assign _ a b => by simp [CExpr.beq, CExpr.beq_refl a, CExpr.beq_refl b]
-  | .tern c a b => by simp [CExpr.beq, CExpr.beq_refl a, CExpr.beq_refl b, CExpr.beq_refl c]
-theorem CExpr.beqs_refl : ∀ (as : List CExpr), CExpr.beqs as as = true
-  | [] => rfl
-  | a :: as => by simp [CExpr.beqs, CExpr.beq_refl a, CExpr.beqs_refl as]
-end
+theorem CStmt.eqs_of {as : List CStmt} (h : ∀ a ∈ as, ∀ b, CStmt.beq a b = true → a = b) :
+    ∀ bs, CStmt.beqs as bs = true → as = bs := by
+  induction as with
+  | nil => intro bs hb; cases bs <;> simp [CStmt.beqs] at hb ⊢
+  | cons a as ih =>
+    intro bs hb
+    cases bs with
+    | nil => simp [CStmt.beqs] at hb
+    | cons b bs =>
+      simp [CStmt.beqs] at hb
+      rw [h a (by simp) b hb.1, ih (fun x hx => h x (by simp [hx])) bs hb.2]
+
+theorem CExpr.beq_sound : (∀ a b : CExpr, CExpr.beq a b = true → a = b) ∧
+    (∀ a b : CStmt, CStmt.beq a b = true → a = b) := by
+  apply CExpr.ind2
+  · intro s b h; cases b <;> simp [CExpr.beq] at h ⊢; exact h
+  · intro f args ih b h; cases b <;> simp [CExpr.beq] at h ⊢
+    exact ⟨h.1, CExpr.eqs_of ih _ h.2⟩
+  · intro o a ih b h; cases b <;> simp [CExpr.beq] at h ⊢
+    exact ⟨h.1, ih _ h.2⟩
+  · intro o a ih b h; cases b <;> simp [CExpr.beq] at h ⊢
+    exact ⟨h.1, ih _ h.2⟩
+  · intro o a ih b h; cases b <;> simp [CExpr.beq] at h ⊢
+    exact ⟨h.1, ih _ h.2⟩
+  · intro o a b iha ihb x h; cases x <;> simp [CExpr.beq] at h ⊢
+    exact ⟨h.1.1, iha _ h.1.2, ihb _ h.2⟩
+  · intro c a b ihc iha ihb x h; cases x <;> simp [CExpr.beq] at h ⊢
+    exact ⟨ihc _ h.1.1, iha _ h.1.2, ihb _ h.2⟩
+  · intro o a b iha ihb x h; cases x <;> simp [CExpr.beq] at h ⊢
+    exact ⟨h.1.1, iha _ h.1.2, ihb _ h.2⟩
+  · intro items e ihs ihe x h; cases x <;> simp [CExpr.beq] at h ⊢
+    exact ⟨CStmt.eqs_of ihs _ h.1, ihe _ h.2⟩
+  · intro e ih x h; cases x <;> simp [CStmt.beq] at h ⊢
+    exact ih _ h
+  · intro x h; cases x <;> simp [CStmt.beq] at h ⊢
+  · intro items ih x h; cases x <;> simp [CStmt.beq] at h ⊢
+    exact CStmt.eqs_of ih _ h
+  · intro c t ihc iht x h; cases x <;> simp [CStmt.beq] at h ⊢
+    exact ⟨ihc _ h.1, iht _ h.2⟩
+  · intro c t e ihc iht ihe x h; cases x <;> simp [CStmt.beq] at h ⊢
+    exact ⟨ihc _ h.1.1, iht _ h.1.2, ihe _ h.2⟩
+  · intro i c s b ihi ihc ihs ihb x h; cases x <;> simp [CStmt.beq] at h ⊢
+    exact ⟨ihi _ h.1.1.1, ihc _ h.1.1.2, ihs _ h.1.2, ihb _ h.2⟩
+  · intro t x y h; cases y <;> simp [CStmt.beq] at h ⊢
+    exact h
+  · intro t x e ih y h; cases y <;> simp [CStmt.beq] at h ⊢
+    exact ⟨h.1.1, h.1.2, ih _ h.2⟩
+
+theorem CExpr.eq_of_beq (a b : CExpr) : CExpr.beq a b = true → a = b := CExpr.beq_sound.1 a b
+theorem CStmt.eq_of_beq (a b : CStmt) : CStmt.beq a b = true → a = b := CExpr.beq_sound.2 a b
+
+theorem CExpr.beqs_refl_of {as : List CExpr} (h : ∀ a ∈ as, CExpr.beq a a = true) :
+    CExpr.beqs as as = true := by
+  induction as with
+  | nil => simp [CExpr.beqs]
+  | cons a as ih => simp [CExpr.beqs, h a (by simp), ih (fun x hx => h x (by simp [hx]))]
+
+theorem CStmt.beqs_refl_of {as : List CStmt} (h : ∀ a ∈ as, CStmt.beq a a = true) :
+    CStmt.beqs as as = true := by
+  induction as with
+  | nil => simp [CStmt.beqs]
+  | cons a as ih => simp [CStmt.beqs, h a (by simp), ih (fun x hx => h x (by simp [hx]))]
+
+theorem CExpr.beq_refl2 : (∀ a : CExpr, CExpr.beq a a = true) ∧ (∀ a : CStmt, CStmt.beq a a = true) := by
+  apply CExpr.ind2 <;> intros <;> simp_all [CExpr.beq, CStmt.beq, CExpr.beqs_refl_of, CStmt.beqs_refl_of]
+
+theorem CExpr.beq_refl (a : CExpr) : CExpr.beq a a = true := CExpr.beq_refl2.1 a
+theorem CStmt.beq_refl (a : CStmt) : CStmt.beq a a = true := CExpr.beq_refl2.2 a
 
 instance : DecidableEq CExpr := fun a b =>
   if h : CExpr.beq a b = true then isTrue (CExpr.eq_of_beq a b h)
   else isFalse (fun e => h (e ▸ CExpr.beq_refl a))
 
+instance : DecidableEq CStmt := fun a b =>
+  if h : CStmt.beq a b = true then isTrue (CStmt.eq_of_beq a b h)
+  else isFalse (fun e => h (e ▸ CStmt.beq_refl a))
+
 /-- Tokens.  A cast `( T )` is the three tokens `lp, ty T, rp`; `?`, `:` and `,` are `op "?"`,
-    `op ":"`, `op ","`. -/
+    `op ":"`, `op ","`.  The statement level adds the punctuation `op "{"`, `op "}"`, `op ";"` and the
+    reserved words `op "if"`, `op "else"`, `op "for"` (none of them is in an operator table, so none
+    of them starts or continues an expression); the type name of a declaration is a `ty` token. -/
 inductive GTok where
   | atom (s : String)
   | op (s : String)
@@ -163,6 +284,15 @@ def prec : CExpr → Nat
   | .bin op _ _ => (match binLevel op with | some l => l + 2 | none => 2)
   | .tern _ _ _ => 1
   | .assign _ _ _ => 0
+  | .stmtExpr _ _ => 15
+
+/-- `s` ends in an `if` without `else` (following else branches and loop bodies): an `else` token
+    right after the text of `s` would be taken by that `if`. -/
+def CStmt.openIf : CStmt → Bool
+  | .if_ _ _ => true
+  | .ifElse _ _ e => e.openIf
+  | .for_ _ _ _ b => b.openIf
+  | _ => false
 
 /-- Parenthesise token list `l` of an expression of level `p` when the context requires level `c`. -/
 def paren (c p : Nat) (l : List GTok) : List GTok :=
@@ -183,11 +313,32 @@ def body : CExpr → List GTok
       paren 2 (prec c) (body c) ++ .op "?" :: paren 0 (prec a) (body a) ++ .op ":" ::
         paren 1 (prec b) (body b)
   | .assign op a b => paren 13 (prec a) (body a) ++ .op op :: paren 0 (prec b) (body b)
+  | .stmtExpr items e =>
+      .lp :: .op "{" :: prItems items ++ (body e ++ [.op ";", .op "}", .rp])
+termination_by structural e => e
 /-- Comma separated argument list (each argument is an `assignment_expr`, level 0). -/
 def bodyArgs : List CExpr → List GTok
   | [] => []
   | [a] => body a
   | a :: b :: rest => body a ++ .op "," :: bodyArgs (b :: rest)
+/-- Tokens of a statement / block item.  The then-branch of an `if … else` is wrapped in braces
+    exactly when it ends in an else-less `if` (otherwise the `else` would be read as belonging to
+    that inner `if`: C binds an `else` to the nearest `if`). -/
+def prS : CStmt → List GTok
+  | .expr e => body e ++ [.op ";"]
+  | .empty => [.op ";"]
+  | .block items => .op "{" :: prItems items ++ [.op "}"]
+  | .if_ c t => .op "if" :: .lp :: body c ++ .rp :: prS t
+  | .ifElse c t e =>
+      .op "if" :: .lp :: body c ++ .rp ::
+        (if t.openIf then .op "{" :: prS t ++ [.op "}"] else prS t) ++ .op "else" :: prS e
+  | .for_ i c s b =>
+      .op "for" :: .lp :: body i ++ .op ";" :: body c ++ .op ";" :: body s ++ .rp :: prS b
+  | .decl t x => [.ty t, .atom x, .op ";"]
+  | .declInit t x e => .ty t :: .atom x :: .op "=" :: body e ++ [.op ";"]
+def prItems : List CStmt → List GTok
+  | [] => []
+  | s :: rest => prS s ++ prItems rest
 end
 
 /-- Print `e` in a context that requires level `c`: parentheses exactly when `prec e < c`. -/
@@ -195,6 +346,24 @@ def pr (c : Nat) (e : CExpr) : List GTok := paren c (prec e) (body e)
 
 /-- Minimal-parenthesis printer. -/
 def printE (e : CExpr) : List GTok := pr 0 e
+
+/-- Statement printer (minimal parentheses in the expressions, braces only where the tree has a
+    `block` or where the else binding requires them). -/
+def printStmt (s : CStmt) : List GTok := prS s
+
+/-- Split `items ++ [expr e]` (the body of a statement-expression ends in its value). -/
+def unsnocExpr : List CStmt → Option (List CStmt × CExpr)
+  | [] => none
+  | [.expr e] => some ([], e)
+  | s :: rest =>
+      match unsnocExpr rest with
+      | some (its, e) => some (s :: its, e)
+      | none => none
+
+/-- Turn the result of parsing an `expr` into an expression statement: the next token must be `;`. -/
+def exprStmtOf : Option (CExpr × Bool × List GTok) → Option (CStmt × List GTok)
+  | some (e, _, .op s :: r) => if s = ";" then some (.expr e, r) else none
+  | _ => none
 
 /-- Parser result: tree, "was derived as a `unary_expr`" flag (needed for the left side of an
     assignment), remaining tokens. -/
@@ -268,9 +437,18 @@ def pExpr : Nat → Nat → List GTok → Option PRes
            | none => none)
       | .atom s :: r => some (.atom s, true, r)
       | .lp :: r =>
-          (match pExpr f 0 r with
-           | some (x, _, .rp :: r') => some (x, true, r')
-           | _ => none)
+          if r.head? = some (.op "{") then
+            -- "(" gcc_extended_expr ")" : "(" "{" block_item* expr ";" "}" ")"
+            (match pItems f r.tail with
+             | some (items, .rp :: r') =>
+                 (match unsnocExpr items with
+                  | some (its, e) => some (.stmtExpr its e, true, r')
+                  | none => none)
+             | _ => none)
+          else
+            (match pExpr f 0 r with
+             | some (x, _, .rp :: r') => some (x, true, r')
+             | _ => none)
       | _ => none
 /-- Loop of binary level `k` (2..11): consume `op` of that level and a level-`k+1` operand. -/
 def pMany : Nat → Nat → CExpr → Bool → List GTok → Option PRes
@@ -304,6 +482,82 @@ def pArgs : Nat → List GTok → Option (List CExpr × List GTok)
         else none
     | some (e, _, .rp :: r) => some ([e], r)
     | _ => none
+/-- One statement from the front of `ts` (C's rules: an `else` belongs to the nearest `if`). -/
+def pStmt : Nat → List GTok → Option (CStmt × List GTok)
+  | 0, _ => none
+  | f + 1, ts =>
+    match ts with
+    | .op s :: r =>
+        if s = ";" then some (.empty, r)
+        else if s = "{" then
+          (match pItems f r with
+           | some (items, r') => some (.block items, r')
+           | none => none)
+        else if s = "if" then
+          (match r with
+           | .lp :: r1 =>
+               (match pExpr f 0 r1 with
+                | some (c, _, .rp :: r2) =>
+                    (match pStmt f r2 with
+                     | some (t, r3) =>
+                         if r3.head? = some (.op "else") then
+                           (match pStmt f r3.tail with
+                            | some (e, r4) => some (.ifElse c t e, r4)
+                            | none => none)
+                         else some (.if_ c t, r3)
+                     | none => none)
+                | _ => none)
+           | _ => none)
+        else if s = "for" then
+          (match r with
+           | .lp :: r1 =>
+               (match pExpr f 0 r1 with
+                | some (i, _, .op s1 :: r2) =>
+                    if s1 = ";" then
+                      (match pExpr f 0 r2 with
+                       | some (c, _, .op s2 :: r3) =>
+                           if s2 = ";" then
+                             (match pExpr f 0 r3 with
+                              | some (st, _, .rp :: r4) =>
+                                  (match pStmt f r4 with
+                                   | some (b, r5) => some (.for_ i c st b, r5)
+                                   | none => none)
+                              | _ => none)
+                           else none
+                       | _ => none)
+                    else none
+                | _ => none)
+           | _ => none)
+        else exprStmtOf (pExpr f 0 ts)
+    | _ => exprStmtOf (pExpr f 0 ts)
+/-- One block item: a declaration when the first token is a type name, else a statement. -/
+def pItem : Nat → List GTok → Option (CStmt × List GTok)
+  | 0, _ => none
+  | f + 1, ts =>
+    match ts with
+    | .ty t :: r =>
+        (match r with
+         | .atom x :: .op s :: r' =>
+             if s = ";" then some (.decl t x, r')
+             else if s = "=" then
+               (match pExpr f 0 r' with
+                | some (e, _, .op s' :: r'') => if s' = ";" then some (.declInit t x e, r'') else none
+                | _ => none)
+             else none
+         | _ => none)
+    | _ => pStmt f ts
+/-- Block items up to and including the closing brace. -/
+def pItems : Nat → List GTok → Option (List CStmt × List GTok)
+  | 0, _ => none
+  | f + 1, ts =>
+    if ts.head? = some (.op "}") then some ([], ts.tail)
+    else
+      match pItem f ts with
+      | some (s, r) =>
+          (match pItems f r with
+           | some (ss, r') => some (s :: ss, r')
+           | none => none)
+      | none => none
 end
 
 /-- Recursive-descent reference parser: one `assignment_expr` from the front of the token list. -/
@@ -321,8 +575,16 @@ def refParseAll (ts : List GTok) : Option CExpr :=
   | some (e, []) => some e
   | _ => none
 
+/-- Statement-level reference parser: one statement, all input must be consumed. -/
+def refParseStmt (ts : List GTok) : Option CStmt :=
+  match pStmt (fuelFor ts) ts with
+  | some (s, []) => some s
+  | _ => none
+
 mutual
-/-- Well-formedness: operator strings come from the tables. -/
+/-- Well-formedness: operator strings come from the tables; declarations occur only as block items;
+    the then-branch of an `if … else` does not end in an else-less `if` (such a tree is not the parse
+    of any text: the text needs braces there, i.e. a `block` node). -/
 def WF : CExpr → Bool
   | .atom _ => true
   | .call _ args => WFs args
@@ -332,9 +594,28 @@ def WF : CExpr → Bool
   | .bin op a b => (binLevel op).isSome && WF a && WF b
   | .tern c a b => WF c && WF a && WF b
   | .assign op a b => isAssignOp op && WF a && WF b
+  | .stmtExpr items e => IWFs items && WF e
+termination_by structural e => e
 def WFs : List CExpr → Bool
   | [] => true
   | a :: rest => WF a && WFs rest
+/-- `SWFp item s`: `s` is well formed in statement position (`item = false`) or as a block item
+    (`item = true`: declarations allowed). -/
+def SWFp : Bool → CStmt → Bool
+  | _, .expr e => WF e
+  | _, .empty => true
+  | _, .block items => IWFs items
+  | _, .if_ c t => WF c && SWFp false t
+  | _, .ifElse c t e => WF c && SWFp false t && !t.openIf && SWFp false e
+  | _, .for_ i c s b => WF i && WF c && WF s && SWFp false b
+  | item, .decl _ _ => item
+  | item, .declInit _ _ e => item && WF e
+def IWFs : List CStmt → Bool
+  | [] => true
+  | s :: rest => SWFp true s && IWFs rest
 end
+
+/-- Well-formed statement. -/
+def SWF (s : CStmt) : Bool := SWFp false s
 
 end Rzil.Grammar
